@@ -26,11 +26,13 @@ def nontrivial(evs):
 
 P = {
     "specdir": "typha",
-    "design": [{"module": "I_Typha", "cfg": "MC_I_Typha_quick.cfg", "thorough_cfg": "MC_I_Typha.cfg",
+    "design": [{"module": "I_Typha", "cfg": "MC_I_Typha_flap.cfg", "workers": 4, "timeout": 900, "thorough_timeout": 1700,
+                "heap": "4g"},
+               {"module": "I_Typha", "cfg": "MC_I_Typha_quick.cfg", "thorough_cfg": "MC_I_Typha.cfg",
                 "workers": 4, "timeout": 900, "thorough_timeout": 1700, "heap": "4g"},
                {"module": "I_Typha", "cfg": "MC_I_Typha_live.cfg", "workers": 4, "timeout": 900, "thorough_timeout": 1700,
                 "heap": "4g"}],
-    "gen": {"module": "Gen_Typha", "cfg": "Gen_cover.cfg", "workers": 1,
+    "gen": {"module": "Gen_Typha", "cfg": "Gen_cover_flap.cfg", "workers": 1,
             "max": 500, "thorough_max": 6000, "timeout": 900, "thorough_timeout": 1700},
     "driver": {"cmd": "typha", "timeout": 1700},
     "n_random": (150, 2000),
@@ -40,11 +42,15 @@ P = {
     "nontrivial": nontrivial,
     "rule": "behaviours = driver decisions (upstream write batches / statuses, client joins with streamed or binary "
             "snapshot, hold / release of a client's callbacks, settle points): one per transition of I_Typha's state graph "
-            "(2 keys x 1 version, 1 client, batch size 2, 1 status) thinned by seed, TLC -simulate walks of 30 decisions "
-            "(thorough), plus seeded random runs (2-6 keys, 1-3 clients joining at random points of the upstream sequence, "
+            "(1 key x 3 versions over 2 values with batches of up to 3 writes, so value flaps A->B->A and delete/re-create "
+            "inside ONE batch occur; thorough also 2 keys x 1 version) thinned by seed, TLC -simulate walks of 30 decisions "
+            "(thorough), 12 scripted-input flap scenarios per run (A->B->A, A->B->C->B, A->B->C->A, present->deleted->present "
+            "with the same value, two keys interleaved; MaxBatchSize 8-15; one client connected throughout, one joining after "
+            "the batch, streamed and binary snapshots), plus seeded random runs (2-6 keys, 1-3 clients joining at random points of the upstream sequence, "
             "MaxBatchSize 2-4, MaxMessageSize 1-3, a quarter with 20 kB values so that held clients exert real TCP "
             "back-pressure); a trace is non-trivial when a client that joined after the first upstream write was told in-sync",
-    "assumptions": ["the upstream is a well-behaved syncer: per-key strictly increasing versions, deletions only of present keys",
+    "assumptions": ["the upstream is a well-behaved syncer: per-key strictly increasing versions (revisions), deletions only of present "
+                    "keys, a write of a present key changes its value (values come from a small domain, so an old value can return)",
                     "InSyncRule is judged against the datastore content at the FIRST upstream in-sync (later in-syncs are implied)",
                     "MaxFallBehind / DropInterval are 1h: the server never drops a slow client in these runs",
                     "a wait that times out in the driver is a harness error (exit 2) after one re-execution, never a verdict"],
@@ -75,6 +81,12 @@ def run(ctx):
         P1["design"] = P["design"] + [{"module": "I_Typha", "cfg": "MC_I_Typha_2c.cfg", "workers": 4,
                                        "thorough_timeout": 1700, "heap": "4g"}]
     _std(ctx, P1)
+    if not ctx.replay and not ctx.violations and not ctx.quick:
+        P4 = dict(P)                            # the 2-key cover (batch size 2: batches split over several crumbs)
+        P4["design"] = []
+        P4["gen"] = dict(P["gen"], cfg="Gen_cover.cfg")
+        P4["n_random"] = (0, 0)
+        _std(ctx, P4)
     if not ctx.replay and not ctx.violations and not ctx.quick:
         P2 = dict(P)
         P2["design"] = []
@@ -113,15 +125,14 @@ def selftest(ctx):
         for e in evs:
             if e["ev"] == "c_upd" and e["kvs"]:
                 e["kvs"][0]["ver"] += 50
-                e["kvs"][0]["vv"] += 50
                 return evs
 
     def forged_value(evs):
         for e in evs:
             if e["ev"] == "c_upd":
                 for kv in e["kvs"]:
-                    if not kv["del"] and kv["ver"] > 1:
-                        kv["vv"] -= 1
+                    if not kv["del"]:
+                        kv["val"] += 7
                         return evs
 
     def insync_too_early(evs):
